@@ -89,3 +89,163 @@ theorem runOps_local (ops : List Op) : ∀ (p q : Process) (c : Comp), SameBuilt
       exact ih p' q' c' h' (fun o ho => hu o (by simp [ho]))
 
 end Glue.Globals
+
+/-! ### concurrent compilations: every interleaving -/
+namespace Glue.Globals
+
+theorem setNth_getElem?_eq {α} : ∀ (l : List α) (i : Nat) (x y : α), l[i]? = some y → (setNth l i x)[i]? = some x
+  | [], _, _, _, h => by simp at h
+  | _ :: _, 0, _, _, _ => by simp [setNth]
+  | _ :: r, i + 1, x, y, h => by
+    simp only [setNth, List.getElem?_cons_succ] at h ⊢
+    exact setNth_getElem?_eq r i x y h
+
+theorem setNth_getElem?_ne {α} : ∀ (l : List α) (i j : Nat) (x : α), i ≠ j → (setNth l i x)[j]? = l[j]?
+  | [], _, _, _, _ => by simp [setNth]
+  | _ :: _, 0, 0, _, h => absurd rfl h
+  | _ :: _, 0, j + 1, _, _ => by simp [setNth]
+  | _ :: _, i + 1, 0, _, _ => by simp [setNth]
+  | _ :: r, i + 1, j + 1, x, h => by
+    simp only [setNth, List.getElem?_cons_succ]
+    exact setNth_getElem?_ne r i j x (by omega)
+
+/-- what one scheduled step does to the thread itself -/
+def soloStep (p : Process) (t : Thread) : Thread := (stepThread p t).2
+
+/-- `n` steps of a thread running alone -/
+def soloN (p : Process) : Nat → Thread → Thread
+  | 0, t => t
+  | n + 1, t => soloN p n (soloStep p t)
+
+def Thread.noUid (t : Thread) : Prop := ∀ op ∈ t.todo, op.usesUid = false
+
+theorem stepThread_builtins (p : Process) (t : Thread) : SameBuiltins (stepThread p t).1 p := by
+  unfold stepThread
+  split
+  · split
+    · rename_i p' c' h; exact step_builtins _ _ _ _ _ h
+    · exact SameBuiltins.refl p
+  · exact SameBuiltins.refl p
+
+theorem soloStep_noUid (p : Process) (t : Thread) (h : t.noUid) : (soloStep p t).noUid := by
+  unfold soloStep stepThread
+  split
+  · rename_i c op rest hs ht
+    have hrest : ∀ o ∈ rest, o.usesUid = false := fun o ho => h o (by rw [ht]; simp [ho])
+    split
+    · exact hrest
+    · intro o ho; simp at ho
+  · exact h
+
+/-- The thread component of a step depends on the process only through the built-ins. -/
+theorem soloStep_local (p q : Process) (t : Thread) (hpq : SameBuiltins p q) (h : t.noUid) :
+    soloStep p t = soloStep q t := by
+  unfold soloStep stepThread
+  split
+  · rename_i c op rest hs ht
+    have hl := step_local p q c op hpq (h op (by rw [ht]; simp))
+    cases hp : step p c op with
+    | error e =>
+      rw [hp] at hl
+      have hq := localOutcome_error (r := step q c op) (e := e) (by rw [← hl]; rfl)
+      simp [hq]
+    | ok pc =>
+      obtain ⟨p', c'⟩ := pc
+      rw [hp] at hl
+      obtain ⟨q', hq⟩ := localOutcome_ok (r := step q c op) (c := c') (by rw [← hl]; rfl)
+      simp [hq]
+  · rfl
+
+theorem soloN_succ' (p : Process) (n : Nat) (t : Thread) : soloN p (n + 1) t = soloN p n (soloStep p t) := rfl
+
+/-- Main lemma: after ANY schedule, thread `i` is exactly where `count i sched` steps of
+running alone (in any process with the same built-ins) would have taken it. -/
+theorem runSched_thread (p0 : Process) : ∀ (sched : List Nat) (p : Process) (ts : List Thread),
+    SameBuiltins p p0 → (∀ (k : Nat) (t : Thread), ts[k]? = some t → t.noUid) →
+    ∀ i t, ts[i]? = some t → (runSched p ts sched).2[i]? = some (soloN p0 (sched.count i) t)
+  | [], _, _, _, _, _, _, hi => by simpa [runSched, soloN] using hi
+  | j :: rest, p, ts, hp, hno, i, t, hi => by
+    simp only [runSched]
+    cases hj : ts[j]? with
+    | none =>
+      have hne : j ≠ i := by intro h; subst h; rw [hi] at hj; cases hj
+      have hc : (j :: rest).count i = rest.count i := by
+        rw [List.count_cons]; simp [hne]
+      rw [hc]
+      exact runSched_thread p0 rest p ts hp hno i t hi
+    | some tj =>
+      have hp' : SameBuiltins (stepThread p tj).1 p0 := (stepThread_builtins p tj).trans hp
+      have hno' : ∀ (k : Nat) (t' : Thread), (setNth ts j (stepThread p tj).2)[k]? = some t' → t'.noUid := by
+        intro k t' hk
+        by_cases hjk : j = k
+        · subst hjk
+          rw [setNth_getElem?_eq ts j _ tj hj] at hk
+          cases hk
+          exact soloStep_noUid p tj (hno j tj hj)
+        · rw [setNth_getElem?_ne ts j k _ hjk] at hk
+          exact hno k t' hk
+      by_cases hji : j = i
+      · subst hji
+        have ht : tj = t := by rw [hi] at hj; cases hj; rfl
+        subst ht
+        have hget := setNth_getElem?_eq ts j (stepThread p tj).2 tj hj
+        have := runSched_thread p0 rest (stepThread p tj).1 (setNth ts j (stepThread p tj).2) hp' hno' j _ hget
+        rw [this]
+        have hc : (j :: rest).count j = rest.count j + 1 := by rw [List.count_cons]; simp
+        rw [hc, soloN_succ']
+        have : soloStep p0 tj = (stepThread p tj).2 := (soloStep_local p p0 tj hp (hno j tj hi)).symm
+        rw [this]
+      · have hget : (setNth ts j (stepThread p tj).2)[i]? = some t := by
+          rw [setNth_getElem?_ne ts j i _ hji]; exact hi
+        have hc : (j :: rest).count i = rest.count i := by rw [List.count_cons]; simp [hji]
+        rw [hc]
+        exact runSched_thread p0 rest (stepThread p tj).1 (setNth ts j (stepThread p tj).2) hp' hno' i t hget
+
+/-- a finished thread does not move -/
+theorem soloN_done (p : Process) (s : Except Err Comp) : ∀ n, soloN p n ⟨[], s⟩ = ⟨[], s⟩
+  | 0 => rfl
+  | n + 1 => by
+    have : soloStep p ⟨[], s⟩ = ⟨[], s⟩ := by
+      unfold soloStep stepThread; cases s <;> rfl
+    rw [soloN_succ', this]; exact soloN_done p s n
+
+theorem soloN_add (p : Process) : ∀ (a b : Nat) (t : Thread), soloN p (a + b) t = soloN p b (soloN p a t)
+  | 0, b, t => by simp [soloN]
+  | a + 1, b, t => by
+    have : a + 1 + b = (a + b) + 1 := by omega
+    rw [this, soloN_succ', soloN_add p a b, soloN_succ']
+
+/-- running alone to the end = the sequential `runOps` -/
+theorem soloN_all (p : Process) : ∀ (ops : List Op) (c : Comp), (∀ op ∈ ops, op.usesUid = false) →
+    soloN p ops.length ⟨ops, .ok c⟩ = ⟨[], (runOps p c ops).2⟩
+  | [], c, _ => rfl
+  | op :: rest, c, hu => by
+    rw [List.length_cons, soloN_succ']
+    have hrest : ∀ o ∈ rest, o.usesUid = false := fun o ho => hu o (by simp [ho])
+    cases hs : step p c op with
+    | error e =>
+      have h1 : soloStep p ⟨op :: rest, .ok c⟩ = ⟨[], .error e⟩ := by
+        simp [soloStep, stepThread, hs]
+      rw [h1, soloN_done]
+      simp [runOps, hs]
+    | ok pc =>
+      obtain ⟨p', c'⟩ := pc
+      have h1 : soloStep p ⟨op :: rest, .ok c⟩ = ⟨rest, .ok c'⟩ := by
+        simp [soloStep, stepThread, hs]
+      rw [h1, soloN_all p rest c' hrest]
+      simp only [runOps, hs]
+      rw [runOps_local rest p' p c' (step_builtins p c op p' c' hs) hrest]
+
+/-- what the caller of a finished compilation gets -/
+def threadResult (t : Thread) : Result :=
+  match t.state with
+  | .ok c => .ok c.out
+  | .error e => .error e
+
+theorem threadResult_runOps (p : Process) (ops : List Op) :
+    threadResult ⟨[], (runOps p Comp.empty ops).2⟩ = (compile p ops).2 := by
+  unfold compile threadResult
+  cases h : runOps p Comp.empty ops with
+  | mk p' r => cases r <;> rfl
+
+end Glue.Globals
